@@ -30,7 +30,7 @@ from rustscan import Source, ScanError, mask, match_brace, strip_attrs_and_docs,
 
 RULES = {
     'R1': 'signature: named return + inserted requires/ensures',
-    'R2': 'loop invariants/decreases inserted; `for x in e` -> `for x in it: e`',
+    'R2': 'loop invariants/decreases inserted; `for x in e` -> `for x in it: e`; requires/ensures inserted into closure headers',
     'R3': 'trait-impl method emitted as inherent method / free fn',
     'R4': 'AsRef<Chain<T>> parameter specialised to &Chain<T>, `.as_ref()` deleted',
     'R5': 'visibility normalised / fields made pub',
@@ -185,7 +185,9 @@ def process_fn(asm, header_line, block, tmpl_line):
                 j += 1
             i = j + 1
         elif s.startswith('//@loop'):
-            strs, lkv, _ = _parse_strs(s[len('//@loop'):])
+            strs, lkv, lfl = _parse_strs(s[len('//@loop'):])
+            if 'optional' in lfl:
+                lkv['optional'] = '1'
             j = i + 1
             lines = []
             while not block[j][0].strip().startswith('//@/loop'):
@@ -193,10 +195,22 @@ def process_fn(asm, header_line, block, tmpl_line):
                 j += 1
             loops.append((strs[0], lkv, lines))
             i = j + 1
+        elif s.startswith('//@closure'):
+            strs, gkv, _ = _parse_strs(s[len('//@closure'):])
+            j = i + 1
+            lines = []
+            while not block[j][0].strip().startswith('//@/closure'):
+                lines.append(block[j])
+                j += 1
+            gkv['rule'] = 'R2'
+            ghosts.append(('after', strs[0], gkv, lines))
+            i = j + 1
         elif s.startswith('//@ghost'):
             rest = s[len('//@ghost'):].strip()
             where, rest = rest.split(None, 1)
-            strs, gkv, _ = _parse_strs(rest)
+            strs, gkv, gfl = _parse_strs(rest)
+            if 'optional' in gfl:
+                gkv['optional'] = '1'
             j = i + 1
             lines = []
             while not block[j][0].strip().startswith('//@/ghost'):
@@ -292,6 +306,10 @@ def process_fn(asm, header_line, block, tmpl_line):
         for (snip, lkv, lines) in loops:
             cands = [(s, ob) for (s, ob) in hdrs if snip in re.sub(r'\s+', ' ', body[s:ob])]
             nth = int(lkv['nth']) if 'nth' in lkv else None
+            if not cands and 'optional' in lkv:
+                asm.rewrites.append(dict(rule='R2', file=rel, line=f['line'], what='optional loop `%s` absent: invariants not inserted' % snip))
+                rec.setdefault('missing_optional', []).append(snip)
+                continue
             if nth is None and len(cands) != 1:
                 raise ScanError('lost anchor: %s::%s: loop header %r matches %d loops' % (container, name, snip, len(cands)))
             if nth is not None and nth >= len(cands):
@@ -307,10 +325,13 @@ def process_fn(asm, header_line, block, tmpl_line):
                 inserts.append((s + mm.end(), [(lkv['iter'] + ': ', None)], 'inline'))
     for (where, snip, gkv, lines) in ghosts:
         nth = int(gkv['nth']) if 'nth' in gkv else None
+        if 'optional' in gkv and snip not in body:
+            rec.setdefault('missing_optional', []).append(snip)
+            continue
         k = _find_nth(body, snip, nth, '%s::%s ghost' % (container, name))
         pos = k + len(snip) if where == 'after' else k
         inserts.append((pos, lines, 'ghost'))
-        rule('R8', 'ghost block (%d lines) %s %r' % (len(lines), where, snip),
+        rule(gkv.get('rule', 'R8'), '%s (%d lines) %s %r' % ('closure contract' if gkv.get('rule') == 'R2' else 'ghost block', len(lines), where, snip),
              f['line'] + f['sig'].count('\n') + body[:k].count('\n'))
     if '.await' in body and 'keep_await' not in flags:
         c = body.count('.await')
@@ -361,7 +382,7 @@ def process_item(asm, header_line, tmpl_line):
     # header is up to first option word starting with known flags
     strs_start = rest.find(' sub ')
     opts = ''
-    for flag in (' pubfields', ' sub ', ' keepderive='):
+    for flag in (' pubfields', ' sub ', ' keepderive=', ' addderive='):
         k = rest.find(flag)
         if k >= 0:
             opts = rest[k:] if not opts or k < rest.find(opts) else opts
@@ -382,6 +403,12 @@ def process_item(asm, header_line, tmpl_line):
             have |= {x.strip() for x in dm.group(1).split(',')}
         keep = [x for x in mk.group(1).split(',') if x in have]
         derive_line = '#[derive(%s)]\n' % ', '.join(keep) if keep else ''
+    ma = re.search(r' addderive=(\S+)', rest)
+    if ma:
+        extra = ma.group(1).split(',')
+        cur = [x.strip() for x in re.findall(r'derive\(([^)]*)\)', derive_line)[0].split(',')] if derive_line else []
+        derive_line = '#[derive(%s)]\n' % ', '.join(cur + [x for x in extra if x not in cur])
+        asm.rewrites.append(dict(rule='R12', file=rel, line=it['line'], what='item %s: derive(%s) added in place of a hand-written/generic impl (assumption listed)' % (header, ','.join(extra))))
     rec = dict(file=rel, item=header, line=it['line'],
                sha256=hashlib.sha256(it['text'].encode()).hexdigest())
     asm.rewrites.append(dict(rule='R7', file=rel, line=it['line'], what='item %s: attributes/comments dropped' % header))
